@@ -15,6 +15,10 @@ From Sdfx Require Import Generated.DCTables.
 From Sdfx Require Import Algo.DualGrid.
 From Sdfx Require Import Algo.DCModel.
 From Sdfx Require Import Algo.DCOctree.
+From Sdfx Require Import Algo.DCVisits.
+From Sdfx Require Import Generated.DCProc.   (* the V1 traversal code, translated from the current source *)
+From Sdfx Require Import Algo.DCPrune.
+From Sdfx Require Import Algo.DCProcEq.
 From Sdfx Require Import Algo.DCScan.
 Import ListNotations.
 Open Scope Z_scope.
@@ -79,26 +83,101 @@ Theorem C19_v1_traversal_is_visits : forall lc d, v1_mesh_lc lc d = flat_map (em
 Proof. exact v1_mesh_is_visits. Qed.
 Print Assumptions C19_v1_traversal_is_visits.
 
-(* depth 1..3, every sign assignment: V1's index triangles are the dual mesh.
-   PARTIAL: the general statement is
-     forall d s, Permutation (v1_mesh s d) (dual_mesh (cube d) s);
-   missing is "forall d, Permutation (cvis d (0,0,0)) (expected_visits (cube d))" (the visit list
-   enumerates every interior minimal edge once), which is evaluated for d = 1, 2, 3 only;
-   C19_v1_traversal_if_visits shows nothing else is missing. *)
-Theorem C19_v1_traversal_partial : forall d s, In d [1%nat; 2%nat; 3%nat] ->
-  Permutation (v1_mesh s d) (dual_mesh (cube d) s).
-Proof. exact v1_traversal_partial. Qed.
-Print Assumptions C19_v1_traversal_partial.
+(* EVERY depth: the sign-free visit list of the recursive procedure at the root enumerates every
+   minimal lattice edge that is surrounded by four cells of the 2^d lattice exactly once, with its
+   four cells in node order (induction over the level at arbitrary origin: cell = 8 cells + 12
+   faces + 6 edges, face = 4 faces + 4 edges, edge = 2 edges; Algo/DCVisits.v) *)
+Theorem C19_v1_visits : forall d, Permutation (cvis d (0, 0, 0)) (expected_visits (cube d)).
+Proof. exact v1_visits. Qed.
+Print Assumptions C19_v1_visits.
 
-Theorem C19_v1_traversal_if_visits : forall d s,
-  Permutation (cvis d (0, 0, 0)) (expected_visits (cube d)) -> Permutation (v1_mesh s d) (dual_mesh (cube d) s).
-Proof. exact v1_traversal_if_visits. Qed.
-Print Assumptions C19_v1_traversal_if_visits.
+(* the same at an arbitrary origin, with multiplicities: in the visit list of a cell of size 2^l at
+   off the visit of edge (a, p) occurs once if the edge is interior to that cube and not otherwise,
+   and nothing else occurs *)
+Theorem C19_v1_cell_visits : forall l off, spec (ind_cell (pow2 l) off) (cvis l off).
+Proof. exact cvis_spec. Qed.
+Print Assumptions C19_v1_cell_visits.
 
-Theorem C19_v1_mesh_closed_partial : forall d s, In d [1%nat; 2%nat; 3%nat] ->
-  boundary_outside (cube d) s -> closed (v1_mesh s d).
+(* EVERY depth d (2^d cells per axis), EVERY sign assignment: V1's index triangles on the
+   full-depth octree are the dual mesh, as a multiset *)
+Theorem C19_v1_traversal : forall d s, Permutation (v1_mesh s d) (dual_mesh (cube d) s).
+Proof. exact v1_traversal. Qed.
+Print Assumptions C19_v1_traversal.
+
+Theorem C19_v1_mesh_closed : forall d s, boundary_outside (cube d) s -> closed (v1_mesh s d).
 Proof. exact v1_mesh_closed. Qed.
-Print Assumptions C19_v1_mesh_closed_partial.
+Print Assumptions C19_v1_mesh_closed.
+
+(* ---- octrees pruned by Populate's out-of-volume filter (non-cubic volumes): a node the filter stops
+   keeps nil children.  cell_proc_p lc pr is the traversal over the octree in which the nodes selected by
+   pr have no children (Algo/DCPrune.v).  If every pruned node is dead (no size-1 cell below it has a sign
+   change) the pruned traversal emits the triangles of the full one, in the same order. *)
+Theorem C19_v1_prune : forall lc pr, (forall l off, pr l off = true -> deadb lc l off = true) ->
+  forall f nd, cell_proc_p lc pr f nd = cell_proc lc f nd.
+Proof. exact prune_cell. Qed.
+Print Assumptions C19_v1_prune.
+
+(* the filter of Populate (octree of size m over a volume of cc cells) only stops dead nodes when the
+   field is outside beyond the volume *)
+Theorem C19_v1_populate_filter_dead : forall s m cc,
+  (let '(cx, cy, cz) := cc in 0 <= cx <= m /\ 0 <= cy <= m /\ 0 <= cz <= m) ->
+  (forall x y z, (let '(cx, cy, cz) := cc in x > cx \/ y > cy \/ z > cz) -> s (x, y, z) = false) ->
+  forall l off, populate_pruned m cc l off = true -> deadb (leaf_corners s) l off = true.
+Proof. exact populate_pruned_dead. Qed.
+Print Assumptions C19_v1_populate_filter_dead.
+
+(* ---- the CODE of the V1 traversal: Generated/DCProc.v is produced from the Go AST of dc3v1.go on every
+   run (harness/dctab/proc.go; meaning of its constructs: Algo/DCProcLib.v).  Instantiated with the
+   model's octree (mops lc enc pr: node = Some (level, minOffset) | None, kind Internal/Leaf from the level
+   and the corner mask, children by child offsets - none below a node selected by pr -, vertex index = enc
+   of the leaf cell) the four generated functions equal the hand-written model; buf is the index buffer
+   on entry, encl enc flattens triangles to vertex indices; the generated functions spend one unit of
+   fuel per call. *)
+Theorem C19_TRANSL_dcContourProcessEdge : forall lc enc pr n0 n1 n2 n3 dir buf, 0 <= dir < 3 ->
+  gen_dcContourProcessEdge (mops lc enc pr) [n0; n1; n2; n3] dir buf = buf ++ encl enc (process_edge lc [n0; n1; n2; n3] dir).
+Proof. exact gen_process_edge_eq. Qed.
+Print Assumptions C19_TRANSL_dcContourProcessEdge.
+
+Theorem C19_TRANSL_dcContourEdgeProc : forall lc enc pr f (n0 n1 n2 n3 : node) dir buf, 0 <= dir < 3 ->
+  gen_dcContourEdgeProc (mops lc enc pr) (S f) [n0; n1; n2; n3] dir buf = buf ++ encl enc (edge_proc_p lc pr f [n0; n1; n2; n3] dir).
+Proof. exact gen_edge_proc_pS. Qed.
+Print Assumptions C19_TRANSL_dcContourEdgeProc.
+
+Theorem C19_TRANSL_dcContourFaceProc : forall lc enc pr f (n0 n1 : node) dir buf, 0 <= dir < 3 ->
+  gen_dcContourFaceProc (mops lc enc pr) (S f) [n0; n1] dir buf = buf ++ encl enc (face_proc_p lc pr f [n0; n1] dir).
+Proof. exact gen_face_proc_pS. Qed.
+Print Assumptions C19_TRANSL_dcContourFaceProc.
+
+Theorem C19_TRANSL_contourCellProc : forall lc enc pr f (nd : node) buf,
+  gen_contourCellProc (mops lc enc pr) (S f) nd buf = buf ++ encl enc (cell_proc_p lc pr f nd).
+Proof. exact gen_cell_proc_pS. Qed.
+Print Assumptions C19_TRANSL_contourCellProc.
+
+(* nothing pruned (pr0): the model of Algo/DCModel.v the theorems above are about *)
+Theorem C19_TRANSL_contourCellProc_full : forall lc enc f (nd : node) buf,
+  gen_contourCellProc (mops lc enc pr0) (S f) nd buf = buf ++ encl enc (cell_proc lc f nd).
+Proof. exact gen_cell_proc_S. Qed.
+Print Assumptions C19_TRANSL_contourCellProc_full.
+
+(* root.contourCellProc(indexBuffer) on the octree of depth d with dead pruned nodes, empty buffer, any fuel
+   above the depth: the index triangles of the full-depth model *)
+Theorem C19_TRANSL_v1_mesh : forall lc enc pr d fuel,
+  (forall l off, pr l off = true -> deadb lc l off = true) -> (d <= fuel)%nat ->
+  gen_contourCellProc (mops lc enc pr) (S fuel) (Some (d, (0, 0, 0))) [] = encl enc (v1_mesh_lc lc d).
+Proof. exact gen_v1_mesh. Qed.
+Print Assumptions C19_TRANSL_v1_mesh.
+
+(* Render on a volume of cc cells inside the cubic octree of 2^d cells per axis, field outside beyond the
+   volume: the translated traversal over the octree pruned by Populate's filter emits v1_mesh s d, which is
+   the dual mesh (C19_v1_traversal) *)
+Theorem C19_TRANSL_v1_mesh_noncubic : forall s enc d cc fuel,
+  (let '(cx, cy, cz) := cc in 0 <= cx <= pow2 d /\ 0 <= cy <= pow2 d /\ 0 <= cz <= pow2 d) ->
+  (forall x y z, (let '(cx, cy, cz) := cc in x > cx \/ y > cy \/ z > cz) -> s (x, y, z) = false) ->
+  (d <= fuel)%nat ->
+  gen_contourCellProc (mops (leaf_corners s) enc (populate_pruned (pow2 d) cc)) (S fuel) (Some (d, (0, 0, 0))) [] =
+  encl enc (v1_mesh s d).
+Proof. exact gen_v1_mesh_populate. Qed.
+Print Assumptions C19_TRANSL_v1_mesh_noncubic.
 
 (* ---- vertices (over the reals): in the cell, hence within one cell diagonal of a zero *)
 Open Scope R_scope.
